@@ -83,8 +83,9 @@ struct UnusedVariableVisitor {
     unused: Vec<UnusedLocalVar>,
 
     /// For let bindings, track the removal position (from `let` to value expr).
-    /// Key is the interned symbol ID.
-    let_removal_positions: FxHashMap<InternedSymbolId, Position>,
+    /// Key is the start offset of the variable being bound, because
+    /// the same name can be bound more than once.
+    let_removal_positions: FxHashMap<usize, Position>,
 
     method_this_type_hint: Option<TypeHint>,
 
@@ -261,7 +262,7 @@ impl UnusedVariableVisitor {
             .pop()
             .expect("Tried to pop an empty scope stack.");
 
-        for (id, name, use_state) in scope.into_iter() {
+        for (_, name, use_state) in scope.into_iter() {
             // TODO: Use the actual receiver symbol name rather than
             // hardcoding `self` here.
             if name.to_string().starts_with('_') || name.to_string() == "self" {
@@ -270,7 +271,9 @@ impl UnusedVariableVisitor {
 
             if let UseState::NotUsed(position) = use_state {
                 // Check if this is a let binding with removal info
-                let fix = if let Some(removal_position) = self.let_removal_positions.remove(&id) {
+                let fix = if let Some(removal_position) =
+                    self.let_removal_positions.remove(&position.start_offset)
+                {
                     UnusedVarFix::RemoveLet { removal_position }
                 } else {
                     UnusedVarFix::Rename
@@ -561,7 +564,7 @@ impl Visitor for UnusedVariableVisitor {
             match dest {
                 LetDestination::Symbol(symbol) => {
                     self.let_removal_positions
-                        .insert(symbol.interned_id, removal_position);
+                        .insert(symbol.position.start_offset, removal_position);
                 }
                 LetDestination::Destructure(_) => {
                     // For destructuring, we can't simply remove the let,
@@ -627,7 +630,8 @@ impl Visitor for UnusedVariableVisitor {
         // rename the variable instead.
         if let Some(last_expr) = block.exprs.last() {
             if let Expression_::Let(LetDestination::Symbol(symbol), _, _) = &last_expr.expr_ {
-                self.let_removal_positions.remove(&symbol.interned_id);
+                self.let_removal_positions
+                    .remove(&symbol.position.start_offset);
             }
         }
 
